@@ -89,6 +89,8 @@ PROP = [  # (subject fragment, property, also)
  ("re-checks a row's foreign keys when it is inserted", "C12", ""),
  ("deliver an ORDER BY that mixes ascending and descending columns", "C02", ""),
  ("select-list alias for another expression is not delivered from an index", "C02", ""),
+ ("reach the user-defined indexes in the normalized form the table stores", "C15", "C02"),
+ ("leaf is split when its entries no longer fit into one page", "C16", "C17"),
  ("DROP COLUMN is refused when the rest of a multi-column UNIQUE constraint", "C33", "C10"),
  ("index-backed IN (subquery) shortcut checks the SELECT privilege", "C26", ""),
 ]
